@@ -170,7 +170,7 @@ fn c17_actor_put_registers_a_write_only_if_it_started() {
 /// the same with an identical put already waiting; Core::check_concurrency_errors is replaced by its
 /// contract for that case (identical item => Ok: c17_check_concurrency_errors_is_the_rule_table)
 #[kani::proof]
-#[kani::unwind(5)]
+#[kani::unwind(22)]
 #[kani::stub(std::time::Instant::now, clock::mock_now)]
 #[kani::stub(std::time::Instant::elapsed, clock::mock_elapsed)]
 #[kani::stub(getrandom::fill, fill_const)]
